@@ -39,7 +39,9 @@ fn one_history(run: &Run, case: u64) {
     let mut p = GenParams::small(block, cap);
     p.target_entries = 5 + rng.below(10) as usize;
     p.max_plain_size = 4096;
-    p.hostile_mtimes = false;
+    // every third history has files dated far from the epoch (pre-1970, beyond 2262, year 9999):
+    // 'unchanged' is decided by comparing recorded and live mtimes
+    p.hostile_mtimes = case % 3 == 1;
     let mut w = World::new("c14", &mut rng, p, run.seed ^ case);
     if case % 25 == 3 {
         // scale: hundreds of entries and blocks, long names, deep nesting
